@@ -70,6 +70,18 @@ def scenarios(tier):
     for tri, st in [(("t1A", "t2A", "t3B"), "Aunref"), (("xA", "t1A", "t2A"), "Aunref"), (("t1A", "t1B", "t3A"), "Aunref")]:
         out.append({"name": "%s||%s||%s from %s (pre-emption bound 2)" % (tri + (st,)), "init": st, "bound": 2,
                     "threads": {"T%d" % (i + 1): [mq[x]] for i, x in enumerate(tri)}, "pids": ("p1", "p2", "p3")})
+    # one injected fault in one of two overlapping calls: the sequential reference runs inject the same fault
+    out.append({"name": "s1A||s2A from empty + persistent ENOSPC at T1's object move", "init": "empty",
+                "threads": {"T1": [MENU["s1A"]], "T2": [MENU["s2A"]]}, "pids": ("p1", "p2"),
+                "faults": {"T1": ("rename:rename:objects/tmp:objects", 0, "ENOSPC", True)}})
+    out.append({"name": "t1A||t2A from Aunref + EIO at T1's cid-list append", "init": "Aunref",
+                "threads": {"T1": [MENU["t1A"]], "T2": [MENU["t2A"]]}, "pids": ("p1", "p2"),
+                "faults": {"T1": ("create:open:w:refs/tmp", 1, "EIO", False)}})
+    # a store whose shard directories are shared by different contents (depth 1, width 1)
+    out.append({"name": "dii(S2 wrong)||store(p1,S1) from S2 unreferenced [depth 1 width 1]", "init": "S2unref", "p": "1x1",
+                "threads": {"T1": [("dii", "S2", "badsize")], "T2": [("store", "p1", "S1", None)]}, "pids": ("p1", "p2")})
+    out.append({"name": "delete(p2)||store(p1,S1) from p2=S2 [depth 1 width 1]", "init": "p2S2", "p": "1x1",
+                "threads": {"T1": [("delete", "p2")], "T2": [("store", "p1", "S1", None)]}, "pids": ("p1", "p2")})
     if tier == "thorough":
         for a, b, st in [("s2A", "d1", "p1A"), ("t1A", "d1", "empty"), ("s1A", "s2A", "empty"), ("s1A", "s1B", "empty")]:
             out.append({"name": "%s||%s from %s (pristine directories)" % (a, b, st), "init": st, "pristine": True, "time_cap": 400,
